@@ -1453,3 +1453,82 @@ example :
   simp only [DrP.step, DrP.half, sumAdj, lincomb, smul_eq_mul, Nat.one_ne_zero, if_false,
     Nat.sub_self]
   refine ⟨by norm_num, fun i => by norm_num, by norm_num⟩
+
+/-! ### ROUND 5: proximal gradient (ISTA) decreases the objective -/
+
+section
+variable {E : Type} [NormedAddCommGroup E] [InnerProductSpace ℝ E]
+
+/-- `proximal_gradient` with `lam(k) = 1`, one executed loop body from ANY state: for `f` with
+sub-differential relation `∂f` (the sub-gradient inequality is the hypothesis `hsub`; `proxF` its resolvent
+with step `γ`) and `g` satisfying the DESCENT LEMMA with constant `Lg` (hypothesis `hdesc`, true for every
+`g` with `Lg`-Lipschitz gradient; for `g = ½‖A·−b‖²`, `Lg = ‖A‖²`), the objective `F = f + g` satisfies
+`F(x⁺) ≤ F(x) − (1/γ − Lg/2) ‖x⁺ − x‖²`.  CONDITIONAL on `hsub`, `hdesc` (standard; C07 relates `∂f` to the
+functional whose proximal the code calls). -/
+theorem C12.proximal_gradient_sufficient_decrease (f g : E → ℝ) (gradG proxF : E → E) (γ Lg : ℝ)
+    (hγ : 0 < γ) (subF : E → Set E) (hF : IsProx proxF γ subF)
+    (hsub : ∀ p u x, u ∈ subF p → f p + ⟪u, x - p⟫ ≤ f x)
+    (hdesc : ∀ x y, g y ≤ g x + ⟪gradG x, y - x⟫ + Lg / 2 * ‖y - x‖ ^ 2)
+    (lam : Nat → ℝ) (s : ProxGradS E) (hlam : lam s.k = 1) :
+    f (ProxGradP.step ⟨proxF, gradG, γ, lam⟩ s).x + g (ProxGradP.step ⟨proxF, gradG, γ, lam⟩ s).x ≤
+      f s.x + g s.x - (1 / γ - Lg / 2) * ‖(ProxGradP.step ⟨proxF, gradG, γ, lam⟩ s).x - s.x‖ ^ 2 := by
+  have hx : (ProxGradP.step ⟨proxF, gradG, γ, lam⟩ s).x = proxF (lincomb (1 : ℝ) s.x (-γ) (gradG s.x)) := by
+    simp only [ProxGradP.step, lincomb, hlam]; module
+  rw [hx]
+  generalize htmp : lincomb (1 : ℝ) s.x (-γ) (gradG s.x) = tmp
+  generalize hp : proxF tmp = p
+  have hu := (hF tmp p).mp hp
+  have h1 := hsub p _ s.x hu
+  have h2 := hdesc s.x p
+  have e : tmp - p = (s.x - p) - γ • gradG s.x := by rw [← htmp]; simp only [lincomb]; module
+  have hin : ⟪γ⁻¹ • (tmp - p), s.x - p⟫ = γ⁻¹ * ‖s.x - p‖ ^ 2 - ⟪gradG s.x, s.x - p⟫ := by
+    rw [e, inner_smul_left, inner_sub_left, inner_smul_left, real_inner_self_eq_norm_sq]
+    simp only [conj_trivial]
+    field_simp
+  rw [hin] at h1
+  have h3 : ⟪gradG s.x, p - s.x⟫ = -⟪gradG s.x, s.x - p⟫ := by
+    rw [← inner_neg_right, neg_sub]
+  have h4 : ‖p - s.x‖ = ‖s.x - p‖ := norm_sub_rev _ _
+  rw [h3] at h2
+  rw [h4] at h2 ⊢
+  have : (1 / γ - Lg / 2) * ‖s.x - p‖ ^ 2 = γ⁻¹ * ‖s.x - p‖ ^ 2 - Lg / 2 * ‖s.x - p‖ ^ 2 := by
+    rw [one_div]; ring
+  linarith
+
+/-- …hence with `γ Lg ≤ 2` (in particular the usual `γ ≤ 1/Lg`) the objective never increases along the
+run of `ProxGradP.step` (the state machine tied to `odl.solvers.proximal_gradient` by the C11 driver),
+for every `n` and every start. -/
+theorem C12.proximal_gradient_objective_mono (f g : E → ℝ) (gradG proxF : E → E) (γ Lg : ℝ)
+    (hγ : 0 < γ) (hL : γ * Lg ≤ 2) (subF : E → Set E) (hF : IsProx proxF γ subF)
+    (hsub : ∀ p u x, u ∈ subF p → f p + ⟪u, x - p⟫ ≤ f x)
+    (hdesc : ∀ x y, g y ≤ g x + ⟪gradG x, y - x⟫ + Lg / 2 * ‖y - x‖ ^ 2)
+    (s : ProxGradS E) (n : Nat) :
+    f ((ProxGradP.step ⟨proxF, gradG, γ, fun _ => 1⟩)^[n + 1] s).x +
+      g ((ProxGradP.step ⟨proxF, gradG, γ, fun _ => 1⟩)^[n + 1] s).x ≤
+    f ((ProxGradP.step ⟨proxF, gradG, γ, fun _ => 1⟩)^[n] s).x +
+      g ((ProxGradP.step ⟨proxF, gradG, γ, fun _ => 1⟩)^[n] s).x := by
+  rw [Function.iterate_succ_apply']
+  have h := C12.proximal_gradient_sufficient_decrease f g gradG proxF γ Lg hγ subF hF hsub hdesc
+    (fun _ => 1) ((ProxGradP.step ⟨proxF, gradG, γ, fun _ => 1⟩)^[n] s) rfl
+  have hk : 0 ≤ 1 / γ - Lg / 2 := by
+    rw [sub_nonneg, div_le_div_iff₀ (by norm_num) hγ]; linarith
+  nlinarith [mul_nonneg hk (sq_nonneg ‖(ProxGradP.step ⟨proxF, gradG, γ, fun _ => 1⟩
+    ((ProxGradP.step ⟨proxF, gradG, γ, fun _ => 1⟩)^[n] s)).x -
+    ((ProxGradP.step ⟨proxF, gradG, γ, fun _ => 1⟩)^[n] s).x‖)]
+
+/-- Non-vacuity: `f = 0` (`prox = id`, `∂f = {0}`), `g = ½x²` (`∇g = id`, `Lg = 1`), `γ = 1` on `ℝ`. -/
+example : ∃ (f g : ℝ → ℝ) (gradG proxF : ℝ → ℝ) (γ Lg : ℝ) (subF : ℝ → Set ℝ), 0 < γ ∧ γ * Lg ≤ 2 ∧
+    IsProx proxF γ subF ∧ (∀ p u x, u ∈ subF p → f p + ⟪u, x - p⟫ ≤ f x) ∧
+    (∀ x y, g y ≤ g x + ⟪gradG x, y - x⟫ + Lg / 2 * ‖y - x‖ ^ 2) ∧ g 0 < g 1 := by
+  refine ⟨fun _ => 0, fun x => x ^ 2 / 2, fun x => x, fun v => v, 1, 1, fun _ => {0}, by norm_num,
+    by norm_num, ?_, ?_, ?_, by norm_num⟩
+  · intro v p
+    simp only [Set.mem_singleton_iff, smul_eq_mul, inv_one, one_mul]
+    constructor <;> intro h <;> linarith
+  · intro p u x hu
+    simp only [Set.mem_singleton_iff] at hu
+    simp [hu]
+  · intro x y
+    simp only [Real.inner_apply, Real.norm_eq_abs, sq_abs]
+    nlinarith [sq_nonneg (y - x)]
+end
